@@ -192,6 +192,13 @@ func IDPMetadata(trust, sso, slo string) *saml.EntityDescriptor {
 	default:
 		kds = []saml.KeyDescriptor{keyDesc("signing", samlgen.Key("idp1").CertB64), keyDesc("encryption", samlgen.Key("idpenc").CertB64)}
 	}
+	if list, ok := strings.CutPrefix(trust, "metacerts:"); ok { // "metacerts:idp1,idpnext": one signing descriptor per named fixture, in that order
+		kds = nil
+		for _, n := range strings.Split(list, ",") {
+			kds = append(kds, keyDesc("signing", samlgen.Key(n).CertB64))
+		}
+		kds = append(kds, keyDesc("encryption", samlgen.Key("idpenc").CertB64))
+	}
 	return &saml.EntityDescriptor{
 		EntityID: samlgen.IDPEntity,
 		IDPSSODescriptors: []saml.IDPSSODescriptor{{
